@@ -1,24 +1,33 @@
-import FstVerif.Model.Reader
+import FstVerif.Proofs.Lookup
 /-
-C16 — get_key. (`C16_get_key` for monotone maps is assembled from
-Proofs/Lookup.lean and Proofs/Build.lean; here: the termination test of the
-loop, which is where the empty key is decided.)
+C16 — get_key on maps whose values increase with the keys. Statements here,
+proofs in Proofs/Lookup.lean. `Tight` (every transition output is attained
+below it) is an invariant of builder output (Proofs/Build.lean, `build_tight`);
+without it the statement is false even for monotone stores — see
+`LookupExample.getKey_counterexample`.
 -/
-namespace Fst
-variable {N : Type}
+namespace Fst.Props
+open Fst
+variable {N : Type} {s : Store} {den : Nat → KV} {acc : NodeAccess N}
 
-/-- the loop stops with `true`, appending nothing more, exactly when the node is
-final and its final output equals the remaining value — in particular the empty
-key is found at the root when its value is asked for -/
-theorem C16_stop (acc : NodeAccess N) (fuel : Nat) (n : N) (value : Nat) (key : Key)
-    (h : acc.isFinal n = true) (hv : value = acc.finalOutput n) :
-    getKeyGo acc (fuel + 1) n value key = some (true, key) := by
-  simp [getKeyGo, h, hv]
+/-- on ANY map: never panics, only appends to the caller's buffer, and `true`
+means the appended key has that value (so a value no key has is answered `false`) -/
+theorem C16_sound (hg : GoodStore s den) (hr : Represents acc s) (root : Nat)
+    (hroot : root = 0 ∨ ∃ n, (root, n) ∈ s) (fuel : Nat) (hf : root + 1 ≤ fuel)
+    (value : Nat) (buf : Key) :
+    ∃ b k, fstGetKeyInto acc root fuel value buf = some (b, buf ++ k) ∧
+      (b = true → (k, value) ∈ den root) := fstGetKeyInto_sound hg hr root hroot fuel hf value buf
 
-/-- a non-final node with no transition whose output is ≤ the value: not found -/
-theorem C16_dead_end (acc : NodeAccess N) (fuel : Nat) (n : N) (value : Nat) (key : Key)
-    (h : acc.isFinal n = false) (hl : lastLe acc n value (acc.len n) 0 none = some none) :
-    getKeyGo acc (fuel + 1) n value key = some (false, key) := by
-  simp [getKeyGo, h, hl]
+/-- on monotone maps: the key with that value is found (including the empty key),
+and `false` is returned exactly when no key has it -/
+theorem C16_get_key (hg : GoodStore s den) (hr : Represents acc s) (root : Nat)
+    (hroot : root = 0 ∨ ∃ n, (root, n) ∈ s) (hm : Mono (den root)) (ht : Tight s den)
+    (fuel : Nat) (hf : root + 1 ≤ fuel) (value : Nat) (buf : Key) :
+    (∀ k, (k, value) ∈ den root → fstGetKeyInto acc root fuel value buf = some (true, buf ++ k)) ∧
+    ((∀ k, (k, value) ∉ den root) → ∃ buf', fstGetKeyInto acc root fuel value buf = some (false, buf')) :=
+  fstGetKeyInto_correct hg hr root hroot hm ht fuel hf value buf
 
-end Fst
+example : Mono (LookupExample.exDen 3) ∧ Tight LookupExample.exStore LookupExample.exDen :=
+  ⟨LookupExample.exMono, LookupExample.exTight⟩
+
+end Fst.Props
